@@ -51,7 +51,7 @@ Theorem C07_ack_sound : forall (ops : list op) lvl now only f,
     Z.of_nat (length (aRanges f)) <= rph_MaxNumAckRanges /\
     (aRanges f <> [] -> validateAckRanges (aRanges f) = true) /\
     (sp = 2%nat -> pn_nonneg ops -> forall q, inR q (aRanges f) -> aIgnoreBelow (hApp h) <= q) /\
-    (forall q, accepted tr sp q -> 0 <= q -> (sp = 2%nat -> aIgnoreBelow (hApp h) <= q) ->
+    (forall q, accepted tr sp q -> (forall x, hist_of h sp = Some x -> deletedBelow x <= q) ->
        exists s l rest, aRanges f = (s, l) :: rest /\ q <= l).
 Proof. exact ack_sound. Qed.
 Print Assumptions C07_ack_sound.
@@ -257,16 +257,72 @@ Example C07_example_glue :
 Proof. vm_compute. reflexivity. Qed.
 Print Assumptions C07_example_glue.
 
-(** REFUTED reading of (c) (DESIGN.md: "p >= Start of the lowest tracked range"): after the limit
-    has dropped a range, a later lower packet opens a new lowest range below a forgotten number. *)
-Theorem C07_duplicate_lowstart_refuted :
-  exists ops q s e rest,
-    In (HRecv q) ops /\
-    ranges (fst (hrun newHist ops)) = (s, e) :: rest /\ s <= q /\ deletedBelow (fst (hrun newHist ops)) <= q /\
-    is_dup (fst (hrun newHist ops)) q = false /\
-    snd (hrunW ops (newHist, None)) = Some 10.
-Proof. exact duplicate_lowstart_refuted. Qed.
-Print Assumptions C07_duplicate_lowstart_refuted.
+(** (c), final form with fixes/C07-trimmed-history-counts-as-received.patch (the model mirrors the
+    repaired ReceivedPacket: when the range limit drops the oldest ranges, deletedBelow is raised
+    past them). Every number ever passed to ReceivedPacket is flagged by IsPotentiallyDuplicate and
+    refused by ReceivedPacket after EVERY history - no "tracked history" exception. *)
+Theorem C07_duplicate_detected_always : forall (ops : list hop) q,
+  In (HRecv q) ops ->
+  let h := fst (hrun newHist ops) in
+  is_dup h q = true /\ snd (hist_recv h q) = false.
+Proof. exact duplicate_detected_always. Qed.
+Print Assumptions C07_duplicate_detected_always.
+
+(** the same at the handler: every number accepted in a space is flagged and refused for as long
+    as the space exists, over all histories of handler calls *)
+Theorem C07_duplicate_always_handler : forall (ops : list op) sp q x,
+  let h := fst (run newHandler ops) in
+  accepted (trace newHandler ops) sp q ->
+  hist_of h sp = Some x ->
+  is_dup x q = true /\ snd (hist_recv x q) = false.
+Proof. exact handler_duplicate_always. Qed.
+Print Assumptions C07_duplicate_always_handler.
+
+(** and at the connection glue: a packet whose number was accepted before in its (still existing)
+    space never has its frames processed again *)
+Theorem C07_duplicate_frames_never_processed : forall (ops : list op) sp q x p srv d,
+  let h := fst (run newHandler ops) in
+  accepted (trace newHandler ops) sp q -> hist_of h sp = Some x ->
+  sp_of (kLvl p) = Some sp -> kPn p = q ->
+  let g := mkG h srv d in
+  fst (conn_packet g p) = g /\
+  (snd (conn_packet g p) = GDropDup \/ snd (conn_packet g p) = GDrop0RTT).
+Proof. exact conn_packet_duplicate_always. Qed.
+Print Assumptions C07_duplicate_frames_never_processed.
+
+(** coverage: every accepted packet that is not below the space's threshold is listed in every ACK
+    frame generated for that space ... *)
+Theorem C07_accepted_stay_acked : forall (ops : list op) sp q x lvl now only f,
+  let h := fst (run newHandler ops) in
+  accepted (trace newHandler ops) sp q -> sp_of lvl = Some sp -> hist_of h sp = Some x ->
+  deletedBelow x <= q ->
+  snd (h_get_ack h lvl now only) = Some f ->
+  inR q (aRanges f).
+Proof. exact accepted_stay_acked. Qed.
+Print Assumptions C07_accepted_stay_acked.
+
+(** ... and the threshold only ever comes from three sources: the initial value, a threshold the
+    caller passed to IgnorePacketsBelow (application data: the peer's permission, unit c07glue), or
+    one past the highest number the MaxNumAckRanges limit dropped (the watermark [W] of [runW]);
+    it covers every dropped number. These are the only two ways an accepted packet can miss its ACK. *)
+Theorem C07_threshold_origin : forall (ops : list op) sp x,
+  let hw := runW newHandler (fun _ => None) ops in
+  hist_of (fst hw) sp = Some x ->
+  (forall w, snd hw sp = Some w -> w + 1 <= deletedBelow x) /\
+  (deletedBelow x = rph_InvalidPacketNumber \/
+   (sp = 2%nat /\ exists r, In (Ignore (deletedBelow x), r) (trace newHandler ops)) \/
+   snd hw sp = Some (deletedBelow x - 1)).
+Proof. exact (fun ops sp x => proj2 (invK_run ops) sp x). Qed.
+Print Assumptions C07_threshold_origin.
+
+(** Regression example: the history that, before the repair, made a received number be accepted a
+    second time (65 isolated numbers, a merge, a late low packet): 10 stays flagged, the threshold is 11. *)
+Example C07_lowstart_witness_handled :
+  let h := fst (hrun newHist lowstart_witness) in
+  In (HRecv 10) lowstart_witness /\ is_dup h 10 = true /\ snd (hist_recv h 10) = false /\
+  deletedBelow h = 11 /\ is_dup h 5 = true.
+Proof. exact lowstart_witness_handled. Qed.
+Print Assumptions C07_lowstart_witness_handled.
 
 (** (b) Application data: while an accepted ack-eliciting packet is unacknowledged, an ACK is
     queued or the alarm stands at exactly [t + MaxAckDelay] for the arrival time [t] of the FIRST
